@@ -272,7 +272,7 @@ SUBS = [
     Sub("exhaustive-depth2", check, enum=enum_exhaustive, nontrivial=nontrivial, classes=classes,
         exhaustive={"quick": False, "thorough": True}),
     Sub("random", check, gen=lambda tier: random_cases(), nontrivial=nontrivial, classes=classes,
-        n={"quick": 400, "thorough": 4000}, essential=["documented-form", "non-logical"]),
+        n={"quick": 1000, "thorough": 8000}, essential=["documented-form", "non-logical"]),
 ]
 
 MANIFEST = {
